@@ -59,6 +59,10 @@ theorem client_source (s : Node) (e : Event) (c : Nat) (m : ToClient) (r : LockR
     simp only [step, stepClose] at h
     repeat' split at h
     all_goals simp at h
+  | closeCut d k =>
+    simp only [step, stepClose] at h
+    repeat' split at h
+    all_goals simp at h
   | request d short q =>
     simp only [step] at h
     rcases will_or_not q with ⟨wct, wcmd, rfl⟩ | hq
